@@ -25,7 +25,7 @@ OnToken(p, lo, hi) == p >= lo /\ (p < hi \/ p = lo)
 
 TReset ==
   /\ IsEv("reset")
-  /\ active' = (R.kind = "parser" /\ R.parser \in {"btor2"} /\ ~R.faulty /\ ~R.long)
+  /\ active' = (R.kind = "parser" /\ R.parser \in {"btor2"} /\ ~R.faulty /\ ~R.long /\ R.pre = 0)
   /\ vis' = (IF R.kind = "parser" /\ R.parser \in {"btor2"} THEN R.input ELSE <<>>)
   /\ items' = <<>> /\ failed' = "" /\ gupos' = -1
 
